@@ -139,12 +139,16 @@ Fixpoint reach (fuel : nat) (E : list (node * node)) (R : list node) : list node
   | S f => let R' := grow E R in if Nat.eqb (length R') (length R) then R else reach f E R'
   end.
 
+(* the closure stops as soon as a pass adds nothing; every productive pass adds a point, and there are at most
+   1 + 2|E| points, so this fuel always reaches the fixpoint (proved in Proofs/C18/Complete.v) *)
+Definition fuel_for (E : list (node * node)) : nat := S (S (2 * length E)).
+
 Definition chk_wire (l : layout) (w : wconn) : bool :=
   match sym_of l (p_el (w_drv w)) with
   | None => false
   | Some sd =>
       let E := edges l (w_id w) in
-      let R := reach (S (length E)) E [(s_id sd, Some (w_drv w))] in
+      let R := reach (fuel_for E) E [(s_id sd, Some (w_drv w))] in
       forallb (fun e => mem (fst e) R && mem (snd e) R) E &&
       forallb (fun p => match sym_of l (p_el p) with Some sp => mem (s_id sp, Some p) R | None => false end) (w_rd w)
   end.
@@ -165,7 +169,7 @@ Definition wire_diag (l : layout) (w : wconn) : nat * bool * list nat * nat :=
   | None => (w_id w, false, [], O)
   | Some sd =>
       let E := edges l (w_id w) in
-      let R := reach (S (length E)) E [(s_id sd, Some (w_drv w))] in
+      let R := reach (fuel_for E) E [(s_id sd, Some (w_drv w))] in
       (w_id w, true,
        map fst (filter (fun kp => match sym_of l (p_el (snd kp)) with Some sp => negb (mem (s_id sp, Some (snd kp)) R) | None => true end)
                        (combine (seq 0 (length (w_rd w))) (w_rd w))),
